@@ -53,7 +53,9 @@ def make_editor(schema, frags):
                 continue
             tn = gql.named(fd.type)
             if schema.is_composite(tn):
-                yield ("missing_subselection", sel[:i] + (Field(s.name, None, s.alias, s.args),) + sel[i + 1:])
+                # object-typed and abstract-typed fields are told apart: only the former is a listed finding
+                desc = "missing_subselection" if schema.kind(tn) == "OBJECT" else "missing_subselection_abstract"
+                yield (desc, sel[:i] + (Field(s.name, None, s.alias, s.args),) + sel[i + 1:])
             else:
                 yield ("subselection_on_leaf", sel[:i] + (Field(s.name, [Field("x")], s.alias, s.args),) + sel[i + 1:])
                 yield ("subselection_on_leaf", sel[:i] + (Field(s.name, [Field("__typename")], s.alias, s.args),) + sel[i + 1:])
@@ -107,7 +109,7 @@ def run(tier):
                 continue
             seen.add(key)
             errs = gql.validate(schema, nd)
-            rule = desc.replace("_first", "")
+            rule = desc.replace("_first", "").replace("_abstract", "")
             if not any(e[0] == rule or (rule == "anonymous_operation" and e[0] == "anonymous_operation") for e in errs):
                 not_invalidating += 1
                 continue
@@ -135,7 +137,7 @@ def run(tier):
         if st == "ok":
             sigs = set()
             if c["edit"] == "missing_subselection":
-                sigs.add("composite_field_without_subselection")
+                sigs.add("object_typed_field_without_subselection")
             if c["edit"].startswith("impossible_condition"):
                 # parent kind of the edited selection set, from the reference model
                 pk = parent_kind_at(schema, c["doc"], c["where"])
